@@ -93,10 +93,11 @@ fn key_id(k: &[u8]) -> u32 {
 }
 
 /// Ops of one client thread over its own keys.
-fn client_ops(store: &FeoxStore, mon: &FileMon, cfg: &Cfg, rng: &mut Rng, thread: usize, nkeys: usize, nops: usize, acks: &Mutex<Vec<(usize, usize, u64)>>, flush_pm: u64, hostile: bool) -> (BTreeMap<Vec<u8>, Vec<Hist>>, Vec<String>) {
-    feoxdb::verif::set_thread_now_ns(NOW + thread as u64);
-    let mut c = Client { store, mon, hist: BTreeMap::new(), cur: BTreeMap::new(), log: Vec::new() };
-    let mut seq = 0u32;
+fn client_ops(store: &FeoxStore, mon: &FileMon, cfg: &Cfg, rng: &mut Rng, thread: usize, nkeys: usize, nops: usize, acks: &Mutex<Vec<(usize, usize, u64)>>, flush_pm: u64, hostile: bool, initial: Option<(BTreeMap<Vec<u8>, Vec<Hist>>, BTreeMap<Vec<u8>, Vec<u8>>, u32, u64)>) -> (BTreeMap<Vec<u8>, Vec<Hist>>, Vec<String>) {
+    let (hist0, cur0, seq0, now_off) = initial.unwrap_or_default();
+    feoxdb::verif::set_thread_now_ns(NOW + now_off + thread as u64);
+    let mut c = Client { store, mon, hist: hist0, cur: cur0, log: Vec::new() };
+    let mut seq = seq0;
     let max_blocks: u64 = if cfg.blocks <= 16 + 64 { 3 } else { 5 };
     for _ in 0..nops {
         let k = key_name(thread, rng.usize_below(nkeys));
@@ -247,7 +248,7 @@ pub fn run_workload(seed: u64, index: u64, dir: &str, tier_ops: usize) -> Result
         for t in 0..threads {
             let mut trng = Rng::derive(seed, index, 100 + t as u64);
             let (store, mon, cfg, acks) = (&store, &*mon, &cfg, &acks);
-            handles.push(s.spawn(move || client_ops(store, mon, cfg, &mut trng, t, nkeys, tier_ops, acks, flush_pm, hostile)));
+            handles.push(s.spawn(move || client_ops(store, mon, cfg, &mut trng, t, nkeys, tier_ops, acks, flush_pm, hostile, None)));
         }
         for h in handles {
             let (hh, ll) = h.join().expect("client thread");
@@ -280,6 +281,102 @@ pub fn run_workload(seed: u64, index: u64, dir: &str, tier_ops: usize) -> Result
     feoxdb::verif::set_thread_now_ns(0);
     let _ = std::fs::remove_file(&path);
     Ok(Workload { cfg, seed, index, base, events, hist, acks, open_end, log, uring })
+}
+
+/// Second epoch (C02/C03 across restarts): recover a crash image of `w1` with the real store,
+/// take what recovery exposes as the acknowledged initial state, run further client calls
+/// (deletes / updates of the recovered keys, flushes) with the trace recorded from the open on.
+/// Crash images of THIS trace must never go back behind the recovered state or an epoch-2
+/// acknowledgement — e.g. a stale older generation that recovery left lying on the device must
+/// not come back once the key's newest generation is deleted and the delete acknowledged.
+pub fn run_epoch2(w1: &Workload, image: Vec<u8>, seed: u64, salt: u64, dir: &str, ops: usize) -> Result<Workload, String> {
+    let mut rng = Rng::derive(seed, w1.index, 0xe2 ^ salt);
+    let path = format!("{dir}/e2-{}-{salt}.feox", w1.index);
+    std::fs::write(&path, &image).map_err(|e| e.to_string())?;
+    let mut cfg = w1.cfg.clone();
+    cfg.cpus = 2;
+    let mon = hub().watch(&path);
+    feoxdb::verif::set_thread_now_ns(NOW + 5_000_000_000);
+    let store = match storeutil::open(&cfg, Some(&path)) {
+        Ok(s) => s,
+        Err(e) => {
+            hub().unwatch(&mon);
+            return Err(format!("epoch-2 open: {e:?}"));
+        }
+    };
+    let open_end = mon.len();
+    let uring = store.verif_uses_uring();
+    // recovered state = acknowledged starting point
+    let dump = storeutil::dump(&store);
+    let t0 = tick();
+    let mut hist: BTreeMap<Vec<u8>, Vec<Hist>> = BTreeMap::new();
+    let mut cur: BTreeMap<Vec<u8>, Vec<u8>> = BTreeMap::new();
+    for key in w1.hist.keys() {
+        let state = dump.get(key).and_then(|d| d.value.as_ref().ok().map(|v| State { value: v.clone(), ts: d.ts, expiry: d.expiry }));
+        if let Some(s) = &state {
+            cur.insert(key.clone(), s.value.clone());
+        }
+        hist.insert(key.clone(), vec![Hist { state, inv: 0, ret: 0, inv_tick: t0, ret_tick: t0, what: "state exposed by recovery of the epoch-1 crash image".into() }]);
+    }
+    let acks = Mutex::new(vec![(0usize, 0usize, tick())]);
+    feoxdb::verif::set_thread_now_ns(NOW + 6_000_000_000);
+    // systematic pass: every recovered key is deleted or rewritten, then acknowledged by a flush —
+    // anything recovery left lying around for these keys must not come back afterwards
+    let mut pass = Client { store: &store, mon: &mon, hist, cur, log: Vec::new() };
+    let all: Vec<Vec<u8>> = pass.hist.keys().cloned().collect();
+    let mut seq = 20_000 + salt as u32 * 100;
+    for k in &all {
+        if !pass.cur.contains_key(k) {
+            continue;
+        }
+        let inv = (mon.len(), tick());
+        if rng.chance(2, 3) {
+            let r = store.delete(k);
+            if r.is_ok() {
+                pass.cur.remove(k);
+            }
+            pass.record(k, inv, format!("delete({}) -> {:?}", hex(k), r.as_ref().map_err(storeutil::err_name)));
+        } else {
+            seq += 1;
+            let v = values::make(Tag { key_id: key_id(k), writer: 9, seq }, rng.range(22, 5000) as usize);
+            let r = store.insert(k, &v);
+            if r.is_ok() {
+                pass.cur.insert(k.clone(), v.clone());
+            }
+            pass.record(k, inv, format!("insert({}, {}) -> {:?}", hex(k), values::describe(&v), r.as_ref().map_err(storeutil::err_name)));
+        }
+    }
+    {
+        let (inv, t) = (mon.len(), tick());
+        let r = store.flush();
+        pass.log.push(format!("[{inv}..{}] flush() -> {:?}", mon.len(), r.as_ref().map_err(storeutil::err_name)));
+        if r.is_ok() {
+            acks.lock().push((inv, mon.len(), t));
+        }
+    }
+    let Client { hist, cur, log: pass_log, .. } = pass;
+    let nkeys = w1.hist.keys().filter(|k| k.starts_with(b"c0-")).count().max(3);
+    let (c0_hist, other_hist): (BTreeMap<_, _>, BTreeMap<_, _>) = hist.into_iter().partition(|(k, _)| k.starts_with(b"c0-"));
+    let (h2, mut log) = client_ops(&store, &mon, &cfg, &mut rng, 0, nkeys, ops / 2, &acks, 25, false, Some((c0_hist, cur.into_iter().filter(|(k, _)| k.starts_with(b"c0-")).collect(), 30_000 + salt as u32 * 100, 7_000_000_000)));
+    let mut hist2: BTreeMap<Vec<u8>, Vec<Hist>> = other_hist;
+    hist2.extend(h2);
+    let mut full_log = pass_log;
+    full_log.append(&mut log);
+    let mut log = full_log;
+    let _ = t0;
+    let inv = mon.len();
+    let t = tick();
+    drop(store);
+    let ret = mon.len();
+    log.push(format!("[{inv}..{ret}] clean drop"));
+    let mut acks = acks.into_inner();
+    acks.push((inv, ret, t));
+    acks.sort();
+    let events = mon.take_events();
+    hub().unwatch(&mon);
+    feoxdb::verif::set_thread_now_ns(0);
+    let _ = std::fs::remove_file(&path);
+    Ok(Workload { cfg, seed, index: w1.index * 1000 + salt, base: image, events, hist: hist2, acks, open_end, log, uring })
 }
 
 // ------------------------------------------------------------------ judging
@@ -496,6 +593,55 @@ pub fn run(args: &Args) -> Report {
                 Err(e) => report.inconclusive.push(format!("workload failed to run: {e}")),
             }
         }
+    }
+    if mode == "chain" {
+        // replace the epoch-1 workloads by epoch-2 workloads started from a sample of their crash images
+        let per = args.num("chain", 6) as usize;
+        let mut next: Vec<Arc<Workload>> = Vec::new();
+        for w in &wls {
+            let mut rng = Rng::derive(args.seed, w.index, 0xc4a1);
+            // prefer cuts where a newer generation is durable but its predecessor not yet retired
+            let n = w.events.len();
+            let mut cuts: Vec<usize> = (w.open_end..=n).filter(|&c| matches!(w.events.get(c), Some(Ev::W { .. })) || c == n).collect();
+            rng.shuffle(&mut cuts);
+            // images on which a key has two generations on the device (newer durable, older not yet
+            // retired) go first: that is where recovery has to clean up
+            let (dups, rest): (Vec<usize>, Vec<usize>) = cuts.into_iter().partition(|&c| {
+                let image = crashimg::build(&w.base, &w.events, &Recipe { cut: c, keep: crashimg::volatile(&w.events, c), tear: None });
+                indep::scan(&image, None, true).map(|s| s.heads.len() > s.records.len()).unwrap_or(false)
+            });
+            report.count("epoch1_cuts_with_duplicate_generations", dups.len() as u64);
+            let mut cuts: Vec<usize> = dups.into_iter().take(per - per / 3).collect();
+            cuts.extend(rest.into_iter().take(per - cuts.len()));
+            let results: Vec<Result<Workload, String>> = std::thread::scope(|s| {
+                let hs: Vec<_> = cuts
+                    .iter()
+                    .enumerate()
+                    .map(|(i, &c)| {
+                        let dir = dir.clone();
+                        let w = w.clone();
+                        let mut rr = Rng::derive(args.seed, w.index, 0x77 + i as u64);
+                        s.spawn(move || {
+                            let recipes = crashimg::recipes_for_cut(&w.events, c, &mut rr, 2, 0);
+                            let all = Recipe { cut: c, keep: crashimg::volatile(&w.events, c), tear: None };
+                            let recipe = if i % 3 != 2 { all } else { recipes.into_iter().last().unwrap_or(all) };
+                            let image = crashimg::build(&w.base, &w.events, &recipe);
+                            run_epoch2(&w, image, args.seed, i as u64, &dir, ops)
+                        })
+                    })
+                    .collect();
+                hs.into_iter().map(|h| h.join().unwrap_or_else(|_| Err("epoch-2 panicked".into()))).collect()
+            });
+            for r in results {
+                match r {
+                    Ok(w2) => next.push(Arc::new(w2)),
+                    Err(e) if e.contains("open") => report.count("epoch2_open_failed", 1),
+                    Err(e) => report.inconclusive.push(e),
+                }
+            }
+        }
+        report.count("epoch1_workloads", wls.len() as u64);
+        wls = next;
     }
     hub().set_sched(None);
     for (point, arrivals, sleeps, exercised) in ctl.summary() {
